@@ -60,6 +60,12 @@ def gen_case(g):
             poly = g.poly(shape=shape, names=names, kind=kind, nterms=1)
             poly["exps"] = [[0] * len(names)]
             poly["coefs"] = poly["coefs"][:1]
+    if poly["kind"] == "float" and rng.random() < 0.3:
+        # coefficients far from unit magnitude: "non-zero" is exact, not a tolerance
+        for i in rng.sample(range(len(poly["coefs"])), rng.randint(1, len(poly["coefs"]))):
+            factor = rng.choice([1e-9, 1e-12, 1e-300, 1e9, 1e200, 3e-9])
+            poly["coefs"][i] = G.nested_map(lambda v: v * factor, poly["coefs"][i])
+        poly["scaled"] = True
     case = {"fn": fn, "poly": poly, "graded": rng.random() < 0.5, "reverse": rng.random() < 0.5}
     if fn == "set_dimensions":
         case["dimensions"] = rng.choice([None, 1, 2, 3, 4, 5])
@@ -87,9 +93,10 @@ def run_case(case, ctx):
     elements = list(numpy.ndindex(*pm.shape))
     nontrivial = any(pm[i].nterms() >= 2 or pm[i].is_zero() for i in elements)
     facts = {"op": fn, "graded": graded, "reverse": reverse, "view": bool(spec.get("view")),
-             "coef_kind": spec["kind"], "ndim": len(spec["shape"])}
+             "coef_kind": spec["kind"], "ndim": len(spec["shape"]),
+             "scaled": bool(spec.get("scaled"))}
     sig = (fn, tuple(spec["shape"]), spec["kind"], graded, reverse, case.get("dimensions"),
-           case.get("which"), len(names))
+           case.get("which"), len(names), bool(spec.get("scaled")))
     ctx.evaluated(sig, nontrivial)
     ctx.count(fn)
     try:
